@@ -17,7 +17,7 @@ Lemma acc_ext : forall a b, a_count a = a_count b -> a_sum a = a_sum b -> a_sums
 Proof. intros [] []; cbn; intros; subst; reflexivity. Qed.
 
 Definition ok_opt (k : nat) (o : option val) : Prop :=
-  match o with None => True | Some v => kind v = k end.
+  match o with None => True | Some v => cls v = k end.
 Definition acc_ok (k : nat) (a : acc) : Prop :=
   ok_opt k (a_min a) /\ ok_opt k (a_max a) /\ ok_opt k (a_first a).
 
@@ -69,7 +69,7 @@ Qed.
 Lemma acc_ok_acc0 : forall k, acc_ok k acc0.
 Proof. intro k. repeat split. Qed.
 
-Lemma acc_ok_add : forall k a v, acc_ok k a -> (kind v = 0%nat \/ kind v = k) -> acc_ok k (add a v).
+Lemma acc_ok_add : forall k a v, acc_ok k a -> (cls v = 0%nat \/ cls v = k) -> acc_ok k (add a v).
 Proof.
   intros k a v [A1 [A2 A3]] Hv. destruct v; cbn [add]; try (repeat split; assumption);
     (destruct Hv as [Hv|Hv]; [cbn in Hv; discriminate|]);
@@ -77,7 +77,7 @@ Proof.
     match goal with |- ok_opt _ (if ?c then _ else _) => destruct c; cbn; auto end.
 Qed.
 
-Definition kinded (k : nat) (vs : list val) : Prop := forall v, In v vs -> kind v = 0%nat \/ kind v = k.
+Definition kinded (k : nat) (vs : list val) : Prop := forall v, In v vs -> cls v = 0%nat \/ cls v = k.
 
 Lemma acc_ok_fold : forall k vs a, kinded k vs -> acc_ok k a -> acc_ok k (fold_add vs a).
 Proof.
@@ -100,7 +100,7 @@ Proof.
   intro k. induction vs as [|v t IH]; intros a Hk Ha.
   - cbn. symmetry. apply merge_acc0_r.
   - assert (Hkt : kinded k t) by (intros w Hw; apply Hk; right; exact Hw).
-    assert (Hv : kind v = 0%nat \/ kind v = k) by (apply Hk; left; reflexivity).
+    assert (Hv : cls v = 0%nat \/ cls v = k) by (apply Hk; left; reflexivity).
     cbn [fold_add fold_left]. fold (fold_add t (add a v)). fold (fold_add t (add acc0 v)).
     rewrite (IH (add a v) Hkt (acc_ok_add k a v Ha Hv)).
     rewrite (IH (add acc0 v) Hkt (acc_ok_add k acc0 v (acc_ok_acc0 k) Hv)).
@@ -114,14 +114,14 @@ Qed.
 Lemma uniformb_kinded : forall vs, uniformb vs = true -> exists k, kinded k vs.
 Proof.
   intros vs H. unfold uniformb in H.
-  destruct (filter (fun v => negb (kind v =? 0)%nat) vs) as [|v0 t] eqn:F.
+  destruct (filter (fun v => negb (cls v =? 0)%nat) vs) as [|v0 t] eqn:F.
   - exists 1%nat. intros v Hv. left.
-    destruct (Nat.eq_dec (kind v) 0) as [E|E]; auto.
-    assert (I : In v (filter (fun v => negb (kind v =? 0)%nat) vs)).
+    destruct (Nat.eq_dec (cls v) 0) as [E|E]; auto.
+    assert (I : In v (filter (fun v => negb (cls v =? 0)%nat) vs)).
     { apply filter_In. split; auto. apply negb_true_iff. apply Nat.eqb_neq. exact E. }
     rewrite F in I. destruct I.
-  - exists (kind v0). intros v Hv.
-    destruct (Nat.eq_dec (kind v) 0) as [E|E]; auto. right.
+  - exists (cls v0). intros v Hv.
+    destruct (Nat.eq_dec (cls v) 0) as [E|E]; auto. right.
     assert (I : In v (v0 :: t)).
     { rewrite <- F. apply filter_In. split; auto. apply negb_true_iff. apply Nat.eqb_neq. exact E. }
     destruct I as [<-|I]; auto.
@@ -160,17 +160,61 @@ Qed.
 
 Theorem accum_refuted_l : exists xs ys,
   finalize_min (fold_add (xs ++ ys) acc0) <> finalize_min (merge (fold_add xs acc0) (fold_add ys acc0)).
-Proof. exists [VInt 1], [VFlt 0; VInt 0]. vm_compute. discriminate. Qed.
+Proof. exists [VInt 1], [VStr 0; VInt 0]. vm_compute. discriminate. Qed.
+
+(** before e7fe7cd a numeric column mixing integers and floats was enough (C17-K2) *)
+Theorem accum_pre_refuted_l : exists xs ys,
+  uniformb (xs ++ ys) = true /\ min_fold_pre (xs ++ ys) <> min_merge_pre (min_fold_pre xs) (min_fold_pre ys).
+Proof. exists [VInt 1], [VFlt 0; VInt 0]. split; [reflexivity|]. vm_compute. discriminate. Qed.
+
+
+(** *** the kind-based invariants (integers and floats apart), for commutativity *)
+Definition ok_optk (k : nat) (o : option val) : Prop :=
+  match o with None => True | Some v => kind v = k end.
+Definition acc_okk (k : nat) (a : acc) : Prop :=
+  ok_optk k (a_min a) /\ ok_optk k (a_max a) /\ ok_optk k (a_first a).
+Lemma acc_okk_acc0 : forall k, acc_okk k acc0.
+Proof. intro k. repeat split. Qed.
+Lemma acc_okk_add : forall k a v, acc_okk k a -> (kind v = 0%nat \/ kind v = k) -> acc_okk k (add a v).
+Proof.
+  intros k a v [A1 [A2 A3]] Hv. destruct v; cbn [add]; try (repeat split; assumption);
+    (destruct Hv as [Hv|Hv]; [cbn in Hv; discriminate|]);
+    repeat split; cbn;
+    match goal with |- ok_optk _ (if ?c then _ else _) => destruct c; cbn; auto end.
+Qed.
+Definition kindedk (k : nat) (vs : list val) : Prop := forall v, In v vs -> kind v = 0%nat \/ kind v = k.
+Lemma acc_okk_fold : forall k vs a, kindedk k vs -> acc_okk k a -> acc_okk k (fold_add vs a).
+Proof.
+  intros k. induction vs as [|v t IH]; intros a Hk Ha; cbn; auto.
+  apply IH; [intros w Hw; apply Hk; right; exact Hw|].
+  apply acc_okk_add; auto. apply Hk. left. reflexivity.
+Qed.
+Lemma uniformb_kind_kinded : forall vs, uniformb_kind vs = true -> exists k, kindedk k vs.
+Proof.
+  intros vs H. unfold uniformb_kind in H.
+  destruct (filter (fun v => negb (kind v =? 0)%nat) vs) as [|v0 t] eqn:F.
+  - exists 1%nat. intros v Hv. left.
+    destruct (Nat.eq_dec (kind v) 0) as [E|E]; auto.
+    assert (I : In v (filter (fun v => negb (kind v =? 0)%nat) vs)).
+    { apply filter_In. split; auto. apply negb_true_iff. apply Nat.eqb_neq. exact E. }
+    rewrite F in I. destruct I.
+  - exists (kind v0). intros v Hv.
+    destruct (Nat.eq_dec (kind v) 0) as [E|E]; auto. right.
+    assert (I : In v (v0 :: t)).
+    { rewrite <- F. apply filter_In. split; auto. apply negb_true_iff. apply Nat.eqb_neq. exact E. }
+    destruct I as [<-|I]; auto.
+    rewrite forallb_forall in H. apply Nat.eqb_eq. apply H. exact I.
+Qed.
 
 (** merging in any order (worker completion order): COUNT and SUM always, MIN and MAX for ordered kinds *)
-Lemma mmin_comm : forall k x y, (2 <= k)%nat -> ok_opt k x -> ok_opt k y ->
+Lemma mmin_comm : forall k x y, (2 <= k)%nat -> ok_optk k x -> ok_optk k y ->
   mmin x y = mmin y x.
 Proof.
   intros k x y Hk Hx Hy.
   destruct x as [[]|], y as [[]|]; cbn in *; try reflexivity; try congruence; try lia; zcases;
     repeat f_equal; lia.
 Qed.
-Lemma mmax_comm : forall k x y, (2 <= k)%nat -> ok_opt k x -> ok_opt k y ->
+Lemma mmax_comm : forall k x y, (2 <= k)%nat -> ok_optk k x -> ok_optk k y ->
   mmax x y = mmax y x.
 Proof.
   intros k x y Hk Hx Hy.
@@ -178,7 +222,7 @@ Proof.
     repeat f_equal; lia.
 Qed.
 
-Theorem accum_merge_comm_l : forall k a b, (2 <= k)%nat -> acc_ok k a -> acc_ok k b ->
+Theorem accum_merge_comm_l : forall k a b, (2 <= k)%nat -> acc_okk k a -> acc_okk k b ->
   a_count (merge a b) = a_count (merge b a) /\ a_sum (merge a b) = a_sum (merge b a)
   /\ a_min (merge a b) = a_min (merge b a) /\ a_max (merge a b) = a_max (merge b a).
 Proof.
